@@ -33,6 +33,9 @@ func main() {
 	fs.Parse(os.Args[3:])
 	out := bufio.NewWriterSize(os.Stdout, 1<<20)
 	defer out.Flush()
+	if c, ok := d.(interface{ Close() }); ok {
+		defer c.Close()
+	}
 	execLine := func(line string) {
 		args, err := wire.Fields(line)
 		res := ""
